@@ -1,4 +1,5 @@
 import OmplModel.Model.Copy
+import OmplModel.Model.CopyKeyed
 import OmplModel.Driver.Common
 /-! Line-protocol driver for the copy / serialization / storage model (header line `copy`).
 The part of an output line after ` # ` (implementation-only facts) is never produced here. -/
@@ -8,8 +9,7 @@ open OmplModel.Copy OmplModel.Driver
 structure PD where
   space : Nat
   cdim : Option Nat
-  g : Graph := {}
-  sids : List Nat := []      -- state id of each vertex (same state pointer => same vertex)
+  kg : KGraph := {}          -- the graph with its state → index map (`Model/CopyKeyed.lean`)
 
 structure S where
   /-- the code under test shows the repaired behaviour of F32 (wrapper = opaque leaf): header `copy wc=fixed` -/
@@ -190,7 +190,23 @@ def parseCs (tok : String) : Option Cs :=
 
 def pdMarker (pd : PD) : Nat := if pd.cdim.isSome then markerPDC else markerPD
 
-def step (s : S) (ts : List String) : S × String :=
+/-- what the caller's state objects hold now (byte images), for the vertices that still point to them -/
+def stateTbl (s : S) (sid : Nat) : Option (List Nat) :=
+  match lookup s.states sid with
+  | some (p, st) => (lookup s.spaces p).map (fun sp => image sp st)
+  | none => none
+
+def PD.g (pd : PD) : Graph := pd.kg.g
+
+/-- `X=` of `pdextract`: per vertex (in index order) the state image and the out-neighbours, read back from the
+`GraphStateStorage` that `extractStorage` builds -/
+def extractDump (g : Graph) (order : List Nat) : String :=
+  let st := extractStorage g order
+  let inv := (List.range g.verts.length).map (fun v => posIn order v 0)
+  joinOr ";" (inv.map (fun j =>
+    hex (st.states.getD j []) ++ ":" ++ joinOr "." ((st.nbrsOf order j).map toString)))
+
+def stepCore (s : S) (ts : List String) : S × String :=
   let bad : S × String := (s, "bad-op")
   match ts with
   | "space" :: id :: rest =>
@@ -305,12 +321,18 @@ def step (s : S) (ts : List String) : S × String :=
         | some imgs =>
           if serLen sp = 0 then bad
           else
-            let loaded := match loadStates (signature sp) (storeStates (signature sp) imgs) with
-              | .ok xs => xs
-              | .error _ => []
-            let md := (List.range loaded.length).map (fun i =>
-              joinOr "." ((List.range (i % 3)).map (fun j => toString ((i * 7 + j * 3) % 11))))
-            (s, s!"ok n={loaded.length} imgs={joinOr ";" (loaded.map hex)} md={joinOr ";" md}")
+            let orig : MStore := (List.range imgs.length).zip imgs |>.foldl (fun acc (i, img) =>
+              acc.addState img ((List.range (i % 3)).map (fun j => (i * 7 + j * 3) % 11))) {}
+            let recs := storeStatesM (signature sp) orig
+            let (loaded, err) := loadStatesM (signature sp) recs
+            let mdStr := fun (m : List Nat) => joinOr "." (m.map toString)
+            -- the object after loading each proper record prefix that ends at a state boundary or just before the
+            -- metadata block: states/metadata entries
+            let rbm := (List.range (imgs.length + 1)).map (fun k =>
+              let r := (loadStatesM (signature sp) (recs.take (k + 1))).1
+              s!"{r.states.length}/{r.md.length}")
+            (s, s!"ok n={loaded.states.length} imgs={joinOr ";" (loaded.states.map hex)} md={joinOr ";" (loaded.md.map mdStr)}" ++
+                s!" rbm={joinOr "," rbm}" ++ (if err.isSome then " ERR" else ""))
         | none => bad
       | _, _ => bad
     | _, _ => bad
@@ -400,28 +422,26 @@ def step (s : S) (ts : List String) : S × String :=
       | some (p, st), some sp =>
         if p ≠ pd.space || !(ty = "p" || ty = "s" || ty = "g") || tag < -2147483648 || tag ≥ 2147483648 then bad
         else
-          let (pd1, idx) := match pd.sids.idxOf? sid with
-            | some i => (pd, i)
-            | none => ({ pd with g := pd.g.addVertex { tag := tag, img := image sp st }, sids := pd.sids ++ [sid] },
-                        pd.g.verts.length)
-          let g2 := if ty = "s" then pd1.g.markStart idx else if ty = "g" then pd1.g.markGoal idx else pd1.g
-          ({ s with pd := some { pd1 with g := g2 } }, s!"idx={idx}")
+          let v : Vertex := { tag := tag, img := image sp st }
+          let r := if ty = "s" then pd.kg.addStartVertex sid v else if ty = "g" then pd.kg.addGoalVertex sid v
+                   else pd.kg.addVertex sid v
+          ({ s with pd := some { pd with kg := r.1 } }, s!"idx={r.2}")
       | _, _ => bad
     | _, _, _ => bad
   | ["pdmark", idx, ty] =>
     match s.pd, idx.toNat? with
     | some pd, some idx =>
       if ty = "s" then
-        ({ s with pd := some { pd with g := pd.g.markStart idx } }, s!"ok={if idx < pd.g.verts.length then 1 else 0}")
+        ({ s with pd := some { pd with kg := { pd.kg with g := pd.g.markStart idx } } }, s!"ok={if idx < pd.g.verts.length then 1 else 0}")
       else if ty = "g" then
-        ({ s with pd := some { pd with g := pd.g.markGoal idx } }, s!"ok={if idx < pd.g.verts.length then 1 else 0}")
+        ({ s with pd := some { pd with kg := { pd.kg with g := pd.g.markGoal idx } } }, s!"ok={if idx < pd.g.verts.length then 1 else 0}")
       else bad
     | _, _ => bad
   | ["pdtag", idx, tag] =>
     match s.pd, idx.toNat?, tag.toInt? with
     | some pd, some idx, some tag =>
       if tag < -2147483648 || tag ≥ 2147483648 then bad
-      else ({ s with pd := some { pd with g := pd.g.setTag idx tag } }, s!"ok={if idx < pd.g.verts.length then 1 else 0}")
+      else ({ s with pd := some { pd with kg := { pd.kg with g := pd.g.setTag idx tag } } }, s!"ok={if idx < pd.g.verts.length then 1 else 0}")
     | _, _, _ => bad
   | "pde" :: a :: b :: w :: rest =>
     match s.pd, a.toNat?, b.toNat?, w.toNat? with
@@ -444,23 +464,111 @@ def step (s : S) (ts : List String) : S × String :=
       | some c =>
         if w ≥ 18446744073709551616 then bad
         else
-          let r := pd.g.addEdge { src := a, dst := b, weight := w, ctrl := c }
-          ({ s with pd := some { pd with g := r.1 } }, s!"ok={if r.2 then 1 else 0}")
+          let r := pd.kg.addEdgeI { src := a, dst := b, weight := w, ctrl := c }
+          ({ s with pd := some { pd with kg := r.1 } }, s!"ok={if r.2 then 1 else 0}")
       | none => bad
     | _, _, _, _ => bad
   | ["pdrmv", idx] =>
     match s.pd, idx.toNat? with
     | some pd, some idx =>
-      let r := pd.g.removeVertex idx
-      ({ s with pd := some { pd with g := r.1, sids := if r.2 then pd.sids.eraseIdx idx else pd.sids } },
-        s!"ok={if r.2 then 1 else 0}")
+      let r := pd.kg.removeVertexI idx
+      ({ s with pd := some { pd with kg := r.1 } }, s!"ok={if r.2 then 1 else 0}")
     | _, _ => bad
   | ["pdrme", a, b] =>
     match s.pd, a.toNat?, b.toNat? with
     | some pd, some a, some b =>
-      let r := pd.g.removeEdge a b
-      ({ s with pd := some { pd with g := r.1 } }, s!"ok={if r.2 then 1 else 0}")
+      let r := pd.kg.removeEdgeI a b
+      ({ s with pd := some { pd with kg := r.1 } }, s!"ok={if r.2 then 1 else 0}")
     | _, _, _ => bad
+  | ["pdmarks", sid, ty] =>
+    -- markStartState / markGoalState with the caller's state pointer
+    match s.pd, sid.toNat? with
+    | some pd, some sid =>
+      if ty = "s" then
+        let r := pd.kg.markStart sid
+        ({ s with pd := some { pd with kg := r.1 } }, s!"ok={if r.2 then 1 else 0}")
+      else if ty = "g" then
+        let r := pd.kg.markGoal sid
+        ({ s with pd := some { pd with kg := r.1 } }, s!"ok={if r.2 then 1 else 0}")
+      else bad
+    | _, _ => bad
+  | ["pdtags", sid, tag] =>
+    match s.pd, sid.toNat?, tag.toInt? with
+    | some pd, some sid, some tag =>
+      if tag < -2147483648 || tag ≥ 2147483648 then bad
+      else
+        let r := pd.kg.tagState sid tag
+        ({ s with pd := some { pd with kg := r.1 } }, s!"ok={if r.2 then 1 else 0}")
+    | _, _, _ => bad
+  | ["pdidx", sid] =>
+    match s.pd, sid.toNat? with
+    | some pd, some sid =>
+      (s, match pd.kg.vertexIndex sid with
+          | some i => s!"idx={i}"
+          | none => "idx=none")
+    | _, _ => bad
+  | "pdes" :: s1 :: t1 :: s2 :: t2 :: w :: rest =>
+    -- addEdge(const PlannerDataVertex&, const PlannerDataVertex&, edge, weight)
+    match s.pd, s1.toNat?, t1.toInt?, s2.toNat?, t2.toInt?, w.toNat? with
+    | some pd, some s1, some t1, some s2, some t2, some w =>
+      let ctrl : Option (Option (Nat × List Nat)) :=
+        match pd.cdim, rest with
+        | none, [] => some none
+        | some c, d :: more =>
+          match d.toNat?, takeCounted more with
+          | some d, some (xs, []) =>
+            match xs.mapM String.toNat? with
+            | some bits =>
+              if bits.length = c && bits.all (· < 18446744073709551616) && d < 18446744073709551616 then
+                some (some (d, bits.flatMap (leBytes 8)))
+              else none
+            | none => none
+          | _, _ => none
+        | _, _ => none
+      match ctrl, lookup s.states s1, lookup s.states s2, lookup s.spaces pd.space with
+      | some c, some (p1, st1), some (p2, st2), some sp =>
+        if p1 ≠ pd.space || p2 ≠ pd.space || w ≥ 18446744073709551616 || t1 < -2147483648 || t1 ≥ 2147483648
+            || t2 < -2147483648 || t2 ≥ 2147483648 then bad
+        else
+          let r := pd.kg.addEdgeV s1 { tag := t1, img := image sp st1 } s2 { tag := t2, img := image sp st2 } w c
+          ({ s with pd := some { pd with kg := r.1 } }, s!"ok={if r.2 then 1 else 0} nv={r.1.g.verts.length}")
+      | _, _, _, _ => bad
+    | _, _, _, _, _, _ => bad
+  | ["pdrmvs", sid] =>
+    match s.pd, sid.toNat? with
+    | some pd, some sid =>
+      let r := pd.kg.removeVertexV sid
+      ({ s with pd := some { pd with kg := r.1 } }, s!"ok={if r.2 then 1 else 0}")
+    | _, _ => bad
+  | ["pdrmes", a, b] =>
+    match s.pd, a.toNat?, b.toNat? with
+    | some pd, some a, some b =>
+      let r := pd.kg.removeEdgeV a b
+      ({ s with pd := some { pd with kg := r.1 } }, s!"ok={if r.2 then 1 else 0}")
+    | _, _, _ => bad
+  | ["pdclear"] =>
+    match s.pd with
+    | some pd => ({ s with pd := some { pd with kg := pd.kg.clear } }, "ok")
+    | none => bad
+  | ["pddecouple"] =>
+    match s.pd with
+    | some pd => ({ s with pd := some { pd with kg := pd.kg.decouple } }, "ok")
+    | none => bad
+  | ["pdextract", _seed] =>
+    -- extractStateStorage: the pointer order of stateIndexMap_ is not observable; by `extractStateStorage_isomorphic` the
+    -- dump does not depend on it — computed here for two orders, which must (and do) agree
+    match s.pd with
+    | some pd =>
+      let n := pd.g.verts.length
+      let a := extractDump pd.g (List.range n)
+      let b := extractDump pd.g (List.range n).reverse
+      let st := extractStorage pd.g (List.range n)
+      let sig := match lookup s.spaces pd.space with
+        | some sp => signature sp
+        | none => []
+      let rt := if loadStatesM sig (storeStatesM sig st) = (st, none) then "same" else "differs"
+      if a = b then (s, s!"n={n} X={a} rt={rt}") else (s, "order-dependent")
+    | none => bad
   | ["pddump"] =>
     match s.pd with
     | some pd => (s, dumpGraph pd.g)
@@ -521,6 +629,15 @@ def step (s : S) (ts : List String) : S × String :=
       | none => bad
     | none => bad
   | _ => bad
+
+/-- a coupled vertex shows what the caller's state object holds *now*: before every `pd…` operation the graph is
+refreshed from the state table (`KGraph.refresh`); decoupled vertices keep their image -/
+def step (s : S) (ts : List String) : S × String :=
+  match ts, s.pd with
+  | op :: _, some pd =>
+    if op.startsWith "pd" then stepCore { s with pd := some { pd with kg := pd.kg.refresh (stateTbl s) } } ts
+    else stepCore s ts
+  | _, _ => stepCore s ts
 
 def init (ts : List String) : Option S :=
   match ts with
